@@ -508,8 +508,250 @@ pub fn reset_all() {
         O_SAW_MAX = [false; NC];
         O_CONTRACT_BROKEN = false;
         O_COPY = true;
+        G_LOG = [GENTRY0; GLOG];
+        G_N = 0;
         I_LOG = [IENTRY0; ILOG];
         I_N = 0;
         I_MATCH = [usize::MAX; NC];
+    }
+}
+
+// ------------------------------------------------------------------------------- C06: ghost log
+
+/// Hybrid hash for sessions with 65535-byte payloads: data of up to 64 bytes is absorbed byte by byte (free toy
+/// hash), longer data only through its length and first 8 bytes - O(1) in the payload length.
+pub struct HHash<const HL: usize, const ID: usize>;
+
+impl<const HL: usize, const ID: usize> Hash for HHash<HL, ID> {
+    fn name(&self) -> &'static str {
+        "HYBRIDHASH"
+    }
+    fn block_len(&self) -> usize {
+        64
+    }
+    fn hash_len(&self) -> usize {
+        HL
+    }
+    fn reset(&mut self) {
+        unsafe { HST[ID] = toy::H_INIT }
+    }
+    fn input(&mut self, data: &[u8]) {
+        unsafe {
+            if data.len() <= 64 {
+                toy::h_absorb(&mut HST[ID], data)
+            } else {
+                toy::h_absorb(&mut HST[ID], &data[..8]);
+                toy::h_absorb(&mut HST[ID], &(data.len() as u64).to_le_bytes());
+            }
+        }
+    }
+    fn result(&mut self, out: &mut [u8]) {
+        unsafe { toy::h_finish(&HST[ID], HL, out) }
+    }
+    fn hkdf(&mut self, ck: &[u8], ikm: &[u8], outputs: usize, o1: &mut [u8], o2: &mut [u8], o3: &mut [u8]) {
+        toy::kdf(HL, ck, ikm, outputs, o1, o2, o3)
+    }
+}
+
+/// Every `encrypt` of the ghost-logging cipher: which key, which nonce, which input (AD, plaintext length and
+/// first 4 plaintext bytes). Shared by all objects (the log is per session endpoint pair).
+pub const GLOG: usize = 8;
+#[derive(Clone, Copy)]
+pub struct GEntry {
+    pub key: [u8; 32],
+    pub nonce: u64,
+    pub ad: [u8; 8],
+    pub adlen: usize,
+    pub ptlen: usize,
+    pub pt4: [u8; 4],
+}
+pub const GENTRY0: GEntry = GEntry { key: [0u8; 32], nonce: 0, ad: [0u8; 8], adlen: 0, ptlen: 0, pt4: [0u8; 4] };
+pub static mut G_LOG: [GEntry; GLOG] = [GENTRY0; GLOG];
+pub static mut G_N: usize = 0;
+
+/// Logging AEAD, O(1) in the plaintext length (no data is moved; the "ciphertext" is whatever the buffer held).
+pub struct GCipher<const ID: usize>;
+
+impl<const ID: usize> Cipher for GCipher<ID> {
+    fn name(&self) -> &'static str {
+        "GHOSTAEAD"
+    }
+    fn set(&mut self, key: &[u8; 32]) {
+        unsafe {
+            CKEY[ID] = *key;
+        }
+    }
+    fn encrypt(&self, nonce: u64, ad: &[u8], pt: &[u8], out: &mut [u8]) -> usize {
+        unsafe {
+            assert!(G_N < GLOG && ad.len() <= 8, "harness bound: ghost log capacity");
+            assert!(out.len() >= pt.len() + 16, "Cipher::encrypt called with an output buffer smaller than plaintext + 16-byte tag (built-in backends panic here)");
+            let mut e = GENTRY0;
+            e.key = CKEY[ID];
+            e.nonce = nonce;
+            e.adlen = ad.len();
+            let mut i = 0;
+            while i < ad.len() {
+                e.ad[i] = ad[i];
+                i += 1;
+            }
+            e.ptlen = pt.len();
+            let mut i = 0;
+            while i < 4 {
+                if i < pt.len() {
+                    e.pt4[i] = pt[i];
+                }
+                i += 1;
+            }
+            G_LOG[G_N] = e;
+            G_N += 1;
+        }
+        pt.len() + 16
+    }
+    fn decrypt(&self, _nonce: u64, _ad: &[u8], ct: &[u8], _out: &mut [u8]) -> Result<usize, Error> {
+        Ok(ct.len() - 16)
+    }
+}
+
+/// true iff two logged encryptions used the same key and nonce for different inputs
+pub fn ghost_log_has_reuse() -> bool {
+    unsafe {
+        let mut bad = false;
+        let mut a = 0;
+        while a < GLOG {
+            let mut b = a + 1;
+            while b < GLOG {
+                if a < G_N && b < G_N {
+                    let (x, y) = (&G_LOG[a], &G_LOG[b]);
+                    let mut same_key = true;
+                    let mut i = 0;
+                    while i < 32 {
+                        same_key &= x.key[i] == y.key[i];
+                        i += 1;
+                    }
+                    if same_key && x.nonce == y.nonce {
+                        let mut same_in = x.adlen == y.adlen && x.ptlen == y.ptlen;
+                        let mut i = 0;
+                        while i < 8 {
+                            same_in &= x.ad[i] == y.ad[i];
+                            i += 1;
+                        }
+                        let mut i = 0;
+                        while i < 4 {
+                            same_in &= x.pt4[i] == y.pt4[i];
+                            i += 1;
+                        }
+                        if !same_in {
+                            bad = true;
+                        }
+                    }
+                }
+                b += 1;
+            }
+            a += 1;
+        }
+        bad
+    }
+}
+
+// -------------------------------------------------------------------------------------------- resolver
+
+/// Contract-faithful DH stub for builder checks: like the built-in `Dh25519::set`, `set` zero-pads short keys and
+/// cannot take a key longer than `priv_len` (the built-in copies into a fixed array and panics).
+pub struct KDh<const PL: usize, const ID: usize>;
+
+impl<const PL: usize, const ID: usize> Dh for KDh<PL, ID> {
+    fn name(&self) -> &'static str {
+        "TOYDH"
+    }
+    fn pub_len(&self) -> usize {
+        PL
+    }
+    fn priv_len(&self) -> usize {
+        PL
+    }
+    fn set(&mut self, privkey: &[u8]) {
+        unsafe {
+            if privkey.len() > PL {
+                O_CONTRACT_BROKEN = true;
+                assert!(false, "Dh::set called with a private key longer than priv_len (the built-in Dh25519 / P256 panic here)");
+                return;
+            }
+            let mut i = 0;
+            while i < PL {
+                DPRIV[ID][i] = if i < privkey.len() { privkey[i] } else { 0 };
+                i += 1;
+            }
+            toy::dh_pub(PL, &DPRIV[ID], &mut DPUB[ID]);
+        }
+    }
+    fn generate(&mut self, rng: &mut dyn Random) {
+        unsafe {
+            rng.fill_bytes(&mut DPRIV[ID][..PL]);
+            toy::dh_pub(PL, &DPRIV[ID], &mut DPUB[ID]);
+        }
+    }
+    fn pubkey(&self) -> &[u8] {
+        unsafe { &DPUB[ID][..PL] }
+    }
+    fn privkey(&self) -> &[u8] {
+        unsafe { &DPRIV[ID][..PL] }
+    }
+    fn dh(&self, pubkey: &[u8], out: &mut [u8]) -> Result<(), Error> {
+        unsafe { toy::dh(PL, PL, &DPRIV[ID], pubkey, out) };
+        Ok(())
+    }
+}
+
+/// Resolver over the O(1) stubs whose availability per primitive kind is given by flags.
+pub struct StubResolver {
+    pub rng: bool,
+    pub dh: bool,
+    pub cipher: bool,
+    pub hash: bool,
+}
+
+pub static mut RES_DH_CALLS: usize = 0;
+pub static mut RES_CIPHER_CALLS: usize = 0;
+
+impl snow::resolvers::CryptoResolver for StubResolver {
+    fn resolve_rng(&self) -> Option<Box<dyn Random>> {
+        if self.rng {
+            Some(Box::new(SRng))
+        } else {
+            None
+        }
+    }
+    fn resolve_dh(&self, _: &snow::params::DHChoice) -> Option<Box<dyn Dh>> {
+        if !self.dh {
+            return None;
+        }
+        unsafe {
+            RES_DH_CALLS += 1;
+            if RES_DH_CALLS == 1 {
+                Some(Box::new(KDh::<4, 0>))
+            } else {
+                Some(Box::new(KDh::<4, 1>))
+            }
+        }
+    }
+    fn resolve_hash(&self, _: &snow::params::HashChoice) -> Option<Box<dyn Hash>> {
+        if self.hash {
+            Some(Box::new(LHash::<8, 0>))
+        } else {
+            None
+        }
+    }
+    fn resolve_cipher(&self, _: &snow::params::CipherChoice) -> Option<Box<dyn Cipher>> {
+        if !self.cipher {
+            return None;
+        }
+        unsafe {
+            RES_CIPHER_CALLS += 1;
+            match RES_CIPHER_CALLS {
+                1 => Some(Box::new(OCipher::<0>)),
+                2 => Some(Box::new(OCipher::<1>)),
+                _ => Some(Box::new(OCipher::<2>)),
+            }
+        }
     }
 }
